@@ -2,6 +2,7 @@
    model (C01, C04 hand-off); no proofs. *)
 From Coq Require Import ZArith List Bool.
 From IP Require Import Server.ProxyCore.
+From IP Require Export Lib.Util.
 Import ListNotations.
 Open Scope Z_scope.
 
@@ -22,10 +23,4 @@ Definition check_schedule (gen_list : list Z) (tr : list lbl) (recvs : list (cli
       else if negb (monitor s) then 2
       else if negb (forallb (recv_ok s) recvs) then 4
       else 0
-  end.
-
-Fixpoint nonzero_indices (i : Z) (l : list Z) : list (Z * Z) :=
-  match l with
-  | [] => []
-  | x :: r => if x =? 0 then nonzero_indices (i + 1) r else (i, x) :: nonzero_indices (i + 1) r
   end.
